@@ -41,6 +41,11 @@ structure World where
   procMnt : Nat
   /-- the kernel's own bound on followed links (`MAXSYMLINKS`, 40 on Linux) -/
   kernelLinks : Nat
+  /-- how this moment's kernel answers a *mutating* call (`mkdirat`, `mknodat`, `unlinkat`, `symlinkat`, `linkat`,
+  `renameat`, `renameat2`).  A `World` is immutable, so the effect of such a call is not part of it: runs against one
+  world never see it (the default refuses them), `KEffect.exec` takes the treatment of mutating calls as a parameter,
+  and in a sequence of worlds (`Attack.runSeq`) the effect is whatever the later worlds look like. -/
+  mutAns : Call → Resp := fun _ => .err ENOSYS
 
 namespace World
 
@@ -204,6 +209,13 @@ def answer (w : World) : Call → Resp
           | .error e => .err e
         | .error e => .err e
       else .err ENOSYS
+  | .mkdirat d n m => w.mutAns (.mkdirat d n m)
+  | .mknodat d n m dev => w.mutAns (.mknodat d n m dev)
+  | .unlinkat d n f => w.mutAns (.unlinkat d n f)
+  | .symlinkat t d n => w.mutAns (.symlinkat t d n)
+  | .linkat od on nd nn f => w.mutAns (.linkat od on nd nn f)
+  | .renameat od on nd nn => w.mutAns (.renameat od on nd nn)
+  | .renameat2 od on nd nn f => w.mutAns (.renameat2 od on nd nn f)
   | _ => .err ENOSYS
 
 end World
